@@ -223,4 +223,319 @@ theorem runTrace_eq (s : Split σ S C) (hv : s.bufsize ≠ some 0) (st0 : Store 
   rw [outerLoop_eq_passes s.copyBuf s.bufsize hv _ _ _ _ _ _ (Nat.lt_succ_self _)]
   simp
 
+/-! ## which objects are handed to which branch -/
+
+/-- the objects of the buffer bound for a branch -/
+def handCells : Ev S C → List Tok
+  | .hand _ buf _ => cellsOf buf
+  | _ => []
+
+def Ev.isHand : Ev S C → Bool
+  | .hand _ _ _ => true
+  | _ => false
+
+/-- no common object -/
+def Disj (a b : List Tok) : Prop := ∀ t, t ∈ a → t ∉ b
+
+theorem Disj.nil_left (b : List Tok) : Disj [] b := by intro t h; simp at h
+theorem Disj.nil_right (a : List Tok) : Disj a [] := by intro t _; simp
+
+theorem handCells_of_not_hand {e : Ev S C} (h : e.isHand = false) : handCells e = [] := by
+  cases e <;> simp_all [Ev.isHand, handCells]
+
+/-- a hand event of a trace segment: a copy was allocated between the counters `lo` and `hi`; an
+original buffer is one of `U` -/
+def handOK (lo hi : Nat) (U : List (List (Item S))) : Ev S C → Prop
+  | .hand _ buf true => ∀ t ∈ cellsOf buf, InRange copyNs lo hi t
+  | .hand _ buf false => buf ∈ U
+  | _ => True
+
+def HandsOK (lo hi : Nat) (U : List (List (Item S))) (tr : List (Ev S C)) : Prop := ∀ e ∈ tr, handOK lo hi U e
+
+theorem handOK_of_not_hand {lo hi : Nat} {U : List (List (Item S))} {e : Ev S C} (h : e.isHand = false) :
+    handOK lo hi U e := by
+  cases e <;> simp_all [Ev.isHand, handOK]
+
+theorem handOK_mono {lo hi lo' hi' : Nat} {U U' : List (List (Item S))} (h1 : lo' ≤ lo) (h2 : hi ≤ hi')
+    (hU : ∀ a ∈ U, a ∈ U') {e : Ev S C} (h : handOK lo hi U e) : handOK lo' hi' U' e := by
+  cases e with
+  | hand i buf c =>
+    cases c with
+    | true =>
+      intro t ht
+      obtain ⟨g1, g2, g3⟩ := h t ht
+      exact ⟨g1, by omega, by omega⟩
+    | false => exact hU _ h
+  | _ => trivial
+
+theorem HandsOK.mono {lo hi lo' hi' : Nat} {U U' : List (List (Item S))} {tr : List (Ev S C)} (h1 : lo' ≤ lo)
+    (h2 : hi ≤ hi') (hU : ∀ a ∈ U, a ∈ U') (h : HandsOK lo hi U tr) : HandsOK lo' hi' U' tr :=
+  fun e he => handOK_mono h1 h2 hU (h e he)
+
+theorem HandsOK.append {lo hi : Nat} {U : List (List (Item S))} {l₁ l₂ : List (Ev S C)}
+    (h₁ : HandsOK lo hi U l₁) (h₂ : HandsOK lo hi U l₂) : HandsOK lo hi U (l₁ ++ l₂) := by
+  intro e he
+  rcases List.mem_append.mp he with he | he
+  · exact h₁ e he
+  · exact h₂ e he
+
+/-- events of an earlier segment and of a later segment refer to different objects -/
+theorem cross_disj {lo mid hi : Nat} {U₁ U₂ : List (List (Item S))} {e₁ e₂ : Ev S C}
+    (h₁ : handOK lo mid U₁ e₁) (h₂ : handOK mid hi U₂ e₂)
+    (hU : ∀ a ∈ U₁, ∀ b ∈ U₂, Disj (cellsOf a) (cellsOf b))
+    (hup₁ : ∀ a ∈ U₁, ∀ t ∈ cellsOf a, t.1 = upNs) (hup₂ : ∀ a ∈ U₂, ∀ t ∈ cellsOf a, t.1 = upNs) :
+    Disj (handCells e₁) (handCells e₂) := by
+  cases e₁ with
+  | hand i buf c =>
+    cases e₂ with
+    | hand j buf' c' =>
+      intro t ht ht'
+      simp only [handCells] at ht ht'
+      cases c <;> cases c'
+      · exact hU _ h₁ _ h₂ t ht ht'
+      · have a := hup₁ _ h₁ t ht
+        have b := (h₂ t ht').1
+        simp [upNs, copyNs] at a b; omega
+      · have a := (h₁ t ht).1
+        have b := hup₂ _ h₂ t ht'
+        simp [upNs, copyNs] at a b; omega
+      · obtain ⟨_, _, a⟩ := h₁ t ht
+        obtain ⟨_, b, _⟩ := h₂ t ht'
+        omega
+    | _ => exact Disj.nil_right _
+  | _ => exact Disj.nil_left _
+
+theorem pairwise_nohand_append {l₁ l₂ : List (Ev S C)} (h : ∀ e ∈ l₁, e.isHand = false)
+    (h₂ : (l₂.map handCells).Pairwise Disj) : ((l₁ ++ l₂).map handCells).Pairwise Disj := by
+  induction l₁ with
+  | nil => simpa using h₂
+  | cons e l ih =>
+    simp only [List.cons_append, List.map_cons, List.pairwise_cons]
+    refine ⟨?_, ih (fun e he => h e (List.mem_cons_of_mem _ he))⟩
+    intro a _
+    rw [handCells_of_not_hand (h e (List.mem_cons_self ..))]
+    exact Disj.nil_left _
+
+theorem fillBuf_nohand (i : Nat) (ops : Ops σ S C) : ∀ (buf : List (Item S)) (st : Store C) (s : σ),
+    ∀ e ∈ (fillBuf i ops st s buf).evs, e.isHand = false := by
+  intro buf
+  induction buf with
+  | nil => intro st s e he; simp [fillBuf] at he
+  | cons x xs ih =>
+    intro st s e he
+    unfold fillBuf at he
+    simp only at he
+    split at he
+    · simp at he; subst he; rfl
+    · rcases List.mem_cons.mp he with rfl | he
+      · rfl
+      · exact ih _ _ e he
+
+theorem outsEv_nohand (i : Nat) (st : Store C) (vals : List (Item S)) : ∀ e ∈ outsEv i st vals, e.isHand = false := by
+  intro e he
+  simp only [outsEv, List.mem_map] at he
+  obtain ⟨v, _, rfl⟩ := he
+  rfl
+
+theorem stepBranch_nohand (buf : List (Item S)) (st : Store C) (b : Branch σ S C) :
+    ∀ e ∈ (stepBranch buf st b).evs, e.isHand = false := by
+  intro e he
+  unfold stepBranch at he
+  split at he
+  · rcases List.mem_cons.mp he with rfl | he
+    · rfl
+    · exact outsEv_nohand _ _ _ e he
+  · dsimp only at he
+    split at he
+    · rcases List.mem_append.mp he with he | he
+      · exact fillBuf_nohand _ _ _ _ _ e he
+      · rcases List.mem_cons.mp he with rfl | he
+        · rfl
+        · exact outsEv_nohand _ _ _ e he
+    · exact fillBuf_nohand _ _ _ _ _ e he
+  · dsimp only at he
+    rcases List.mem_append.mp he with he | he
+    · exact fillBuf_nohand _ _ _ _ _ e he
+    · rcases List.mem_cons.mp he with rfl | he
+      · rfl
+      · exact outsEv_nohand _ _ _ e he
+  · rcases List.mem_cons.mp he with rfl | he
+    · rfl
+    · exact outsEv_nohand _ _ _ e he
+
+theorem finalPass_nohand (fwe : Bool) : ∀ (act : List (Branch σ S C)) (st : Store C),
+    ∀ e ∈ (finalPass fwe st act).1, e.isHand = false := by
+  intro act
+  induction act with
+  | nil => intro st e he; simp [finalPass] at he
+  | cons b rest ih =>
+    intro st e he
+    unfold finalPass at he
+    split at he
+    · split at he
+      · rcases List.mem_cons.mp he with rfl | he
+        · rfl
+        · rcases List.mem_append.mp he with he | he
+          · exact outsEv_nohand _ _ _ e he
+          · exact ih _ e he
+      · simp at he; subst he; rfl
+    · rcases List.mem_cons.mp he with rfl | he
+      · rfl
+      · rcases List.mem_append.mp he with he | he
+        · exact outsEv_nohand _ _ _ e he
+        · exact ih _ e he
+    · split at he
+      · rcases List.mem_cons.mp he with rfl | he
+        · rfl
+        · rcases List.mem_append.mp he with he | he
+          · exact outsEv_nohand _ _ _ e he
+          · exact ih _ e he
+      · exact ih _ e he
+    · split at he
+      · rcases List.mem_cons.mp he with rfl | he
+        · rfl
+        · rcases List.mem_append.mp he with he | he
+          · exact outsEv_nohand _ _ _ e he
+          · exact ih _ e he
+      · exact ih _ e he
+
+/-- one buffer with `copy_buf=True`: every branch but the last is handed new objects; the objects
+handed to different branches are different -/
+theorem pass_hands (orig : List (Item S)) (hup : ∀ t ∈ cellsOf orig, t.1 = upNs) :
+    ∀ (act : List (Branch σ S C)) (w : World C),
+      w.cc ≤ (pass true orig w act).2.2.cc ∧
+      HandsOK w.cc (pass true orig w act).2.2.cc [orig] (pass true orig w act).1 ∧
+      ((pass true orig w act).1.map handCells).Pairwise Disj := by
+  intro act
+  induction act with
+  | nil => intro w; simp [pass, HandsOK]
+  | cons b rest ih =>
+    intro w
+    unfold pass
+    simp only
+    generalize hc : chooseBuf true (!rest.isEmpty) orig w = c
+    generalize hr : stepBranch c.2.1 c.1.st b = r
+    obtain ⟨i1, i2, i3⟩ := ih { st := r.st, cc := c.1.cc }
+    simp only at i1
+    have hnh : ∀ e ∈ r.evs, e.isHand = false := by rw [← hr]; exact stepBranch_nohand _ _ _
+    -- the buffer of this branch
+    have hb : w.cc ≤ c.1.cc ∧ handOK w.cc c.1.cc ([] : List (List (Item S))) (Ev.hand b.id c.2.1 c.2.2 : Ev S C)
+        ∨ (rest = [] ∧ c = (w, orig, false)) := by
+      cases rest with
+      | nil => right; simp [← hc, chooseBuf]
+      | cons b' rest' =>
+        left
+        have hd := deepcopy_spec w orig
+        simp only [chooseBuf, List.isEmpty_cons, Bool.not_false, Bool.and_self, if_true] at hc
+        subst hc
+        exact ⟨hd.1, hd.2.2.1⟩
+    rcases hb with ⟨hle, hh⟩ | ⟨hrest, hcw⟩
+    · refine ⟨by omega, ?_, ?_⟩
+      · intro e he
+        rcases List.mem_cons.mp he with rfl | he
+        · exact handOK_mono (Nat.le_refl _) i1 (by intro a ha; simp at ha) hh
+        · rcases List.mem_append.mp he with he | he
+          · exact handOK_of_not_hand (hnh e he)
+          · exact handOK_mono hle (Nat.le_refl _) (fun a ha => ha) (i2 e he)
+      · simp only [List.cons_append, List.map_cons, List.pairwise_cons]
+        refine ⟨?_, pairwise_nohand_append hnh i3⟩
+        intro a ha
+        simp only [List.map_append, List.mem_append, List.mem_map] at ha
+        rcases ha with ⟨e, he, rfl⟩ | ⟨e, he, rfl⟩
+        · rw [handCells_of_not_hand (hnh e he)]; exact Disj.nil_right _
+        · exact cross_disj hh (i2 e he) (by intro a ha; simp at ha) (by intro a ha; simp at ha)
+            (by intro a ha; simp at ha; subst ha; exact hup)
+    · subst hrest
+      subst hcw
+      simp only [pass] at i1 i2 i3 ⊢
+      refine ⟨Nat.le_refl _, ?_, ?_⟩
+      · intro e he
+        rcases List.mem_cons.mp he with rfl | he
+        · simp [handOK]
+        · have he' : e ∈ r.evs := by simpa using he
+          exact handOK_of_not_hand (hnh e he')
+      · simp only [List.cons_append, List.map_cons, List.pairwise_cons, List.append_nil]
+        refine ⟨?_, ?_⟩
+        · intro a ha
+          simp only [List.mem_map] at ha
+          obtain ⟨e, he, rfl⟩ := ha
+          rw [handCells_of_not_hand (hnh e he)]; exact Disj.nil_right _
+        · have := pairwise_nohand_append (l₂ := []) hnh (by simp)
+          simpa using this
+
+theorem pass_nohand_nil (copyBuf : Bool) (orig : List (Item S)) (w : World C) :
+    pass copyBuf orig w ([] : List (Branch σ S C)) = ([], [], w) := rfl
+
+/-- all buffers -/
+theorem passes_hands : ∀ (bl : List (List (Item S))) (act : List (Branch σ S C)) (w : World C),
+    (∀ blk ∈ bl, ∀ t ∈ cellsOf blk, t.1 = upNs) →
+    bl.Pairwise (fun a b => Disj (cellsOf a) (cellsOf b)) →
+      w.cc ≤ (passes true bl w act).2.2.cc ∧
+      HandsOK w.cc (passes true bl w act).2.2.cc bl (passes true bl w act).1 ∧
+      ((passes true bl w act).1.map handCells).Pairwise Disj := by
+  intro bl
+  induction bl with
+  | nil => intro act w _ _; simp [passes, HandsOK]
+  | cons blk rest ih =>
+    intro act w hup hpw
+    unfold passes
+    simp only
+    obtain ⟨p1, p2, p3⟩ := pass_hands blk (hup blk (List.mem_cons_self ..)) act w
+    rw [List.pairwise_cons] at hpw
+    obtain ⟨q1, q2, q3⟩ := ih (pass true blk w act).2.1 (pass true blk w act).2.2
+      (fun b hb => hup b (List.mem_cons_of_mem _ hb)) hpw.2
+    refine ⟨by omega, ?_, ?_⟩
+    · exact HandsOK.append (p2.mono (Nat.le_refl _) q1 (by intro a ha; simp at ha; subst ha; exact List.mem_cons_self ..))
+        (q2.mono p1 (Nat.le_refl _) (fun a ha => List.mem_cons_of_mem _ ha))
+    · rw [List.map_append, List.pairwise_append]
+      refine ⟨p3, q3, ?_⟩
+      intro a ha b hb
+      simp only [List.mem_map] at ha hb
+      obtain ⟨e₁, he₁, rfl⟩ := ha
+      obtain ⟨e₂, he₂, rfl⟩ := hb
+      exact cross_disj (p2 e₁ he₁) (q2 e₂ he₂)
+        (by intro a ha b hb; simp at ha; subst ha; exact hpw.1 b hb)
+        (by intro a ha; simp at ha; subst ha; exact hup _ (List.mem_cons_self ..))
+        (fun a ha => hup a (List.mem_cons_of_mem _ ha))
+
+/-! ## blocks of an alias-free flow are alias-free -/
+
+theorem readBlock_append (bs : Option Nat) (flow : List (Item S)) :
+    (readBlock bs flow).1 ++ (readBlock bs flow).2 = flow := by
+  cases bs <;> simp [readBlock]
+
+theorem blocks_cells : ∀ (n : Nat) (bs : Option Nat) (_ : bs ≠ some 0) (flow : List (Item S)), flow.length ≤ n →
+    (cellsOf flow).Nodup →
+      (∀ blk ∈ blocks bs flow, ∀ t ∈ cellsOf blk, t ∈ cellsOf flow) ∧
+      (blocks bs flow).Pairwise (fun a b => Disj (cellsOf a) (cellsOf b)) := by
+  intro n
+  induction n with
+  | zero =>
+    intro bs _ flow h _
+    have : flow = [] := by cases flow <;> simp_all
+    subst this
+    simp
+  | succ n ih =>
+    intro bs hbs flow h hnd
+    by_cases hne : flow = []
+    · subst hne; simp
+    · obtain ⟨_, h2⟩ := Lena.C03.blocks_readBlock bs hbs flow hne
+      have hlen := Lena.C03.readBlock_length bs hbs flow hne
+      have happ := readBlock_append bs flow
+      rw [h2]
+      have hc : cellsOf flow = cellsOf (readBlock bs flow).1 ++ cellsOf (readBlock bs flow).2 := by
+        rw [← cellsOf_append, happ]
+      rw [hc, List.nodup_append] at hnd
+      obtain ⟨r1, r2⟩ := ih bs hbs (readBlock bs flow).2 (by omega) hnd.2.1
+      refine ⟨?_, ?_⟩
+      · intro blk hblk t ht
+        rw [hc]
+        rcases List.mem_cons.mp hblk with rfl | hblk
+        · exact List.mem_append_left _ ht
+        · exact List.mem_append_right _ (r1 blk hblk t ht)
+      · rw [List.pairwise_cons]
+        refine ⟨?_, r2⟩
+        intro blk hblk t ht ht'
+        exact hnd.2.2 t ht t (r1 blk hblk t ht') rfl
+
 end Lena.C04
